@@ -7,16 +7,19 @@ Driver module "c12": one single-process history through both back-end models in 
                kind counter|gauge|summary|histogram ; labelnames `,`-list of h: ; extra as in c01 (`,`-list of b:<u64>~h:<repr>)
      ops     `;`-list of   call/<i>/<args>/<kws>/<act>/<arg> | remove/<i>/<args> | clear/<i>      (fields as in c01)
 
-  reply  ok <outs> <rawMutex> <rawMp> <normMutex> <normMp>
+  reply  ok <outs> <rawMutex> <rawMp> <normMutex> <normMp> <normMutexErased> <normMpErased>
             outs       `;`-list of ok|<class>, one per op (`.` = none)
             raw*       `,`-list of h:<family>!h:<name>!<labels>!b:<u64>    (`.` = none; rawMp = E<class> if the collector raised)
             norm*      `,`-list of h:<name>!<labels>!b:<u64>               labels `+`-list of h:k=h:v (`.` = none)
+            norm*Erased  the in-memory collection of the history with every remove/clear ERASED, and the file-backed
+                       collection of the given history, both normalised with the erased history's never-set predicate
          err <class>     a constructor raised
 -/
 import PromVerif.Drv.C01
 import PromVerif.Drv.C08
 import PromVerif.Model.Backends
 import PromVerif.Spec.Backends
+import PromVerif.Lemmas.BackendsEraseRun
 
 namespace PromVerif.Drv.C12
 open PromVerif PromVerif.Wire PromVerif.Py
@@ -97,11 +100,14 @@ def handle : List String → String
         let ns := neverSetOf ds ops
         let rawMutex := flatMutex ds (Model.Metrics.collect mu.1)
         let outs := if mu.2.isEmpty then "." else ";".intercalate (mu.2.map encOut)
+        let opsE := Lemmas.Backends.erase ops
+        let nsE := neverSetOf ds opsE
+        let normE := encNorm (normalise ds nsE (flatMutex ds (Model.Metrics.collect (runMutex ds opsE))))
         match mpCollect bo st with
-        | .error e => s!"ok {outs} {encFlat rawMutex} E{e.name} {encNorm (normalise ds ns rawMutex)} ."
+        | .error e => s!"ok {outs} {encFlat rawMutex} E{e.name} {encNorm (normalise ds ns rawMutex)} . {normE} ."
         | .ok out =>
           let rawMp := flatMp out
-          s!"ok {outs} {encFlat rawMutex} {encFlat rawMp} {encNorm (normalise ds ns rawMutex)} {encNorm (normalise ds ns rawMp)}"
+          s!"ok {outs} {encFlat rawMutex} {encFlat rawMp} {encNorm (normalise ds ns rawMutex)} {encNorm (normalise ds ns rawMp)} {normE} {encNorm (normalise ds nsE rawMp)}"
     | _, _, _, _ => "err bad-field"
   | _ => "err bad-op"
 
